@@ -76,6 +76,8 @@ class TlsWorld {
     uint64_t steps = 0;
     Fingerprint fp;
     int setup_rc = 0;
+    bool own_keys = true;           // false: keys and session id belong to the caller (multi-client histories, C14)
+    void adopt(sslKeys_t *sk, sslKeys_t *ck, sslSessionId_t *s, const PairCfg &c) { skeys = sk; ckeys = ck; sid = s; pc = c; own_keys = false; }
     bool keep_logs = false;         // endpoints record inbound/outbound bytes and application actions (C18)
 
     ~TlsWorld();
